@@ -5,7 +5,7 @@ sys.path.insert(0, os.path.join(os.path.dirname(os.path.abspath(__file__)), ".."
 from loccheck import *
 
 KEYS = ["a", "b", "c"]
-VALS = [1, 2, "x", "y", True]
+VALS = [1, 2, "x", "y", True, None]
 
 def gen_fact(rng):
     f = {}
@@ -56,7 +56,15 @@ class QG:
             if z < 0.08: return {}
             if z < 0.14: return {"code": "this is not (javascript", "verif_tmpl": {"t": "bad"}, "verif_bad": True}
             if z < 0.24: return code_term(rng, sorted(scope) + ["?unbound"])      # a ReferenceError when the unbound name is picked
-            return code_term(rng, sorted(scope))
+            ct = code_term(rng, sorted(scope))
+            t = ct["verif_tmpl"]
+            # an object returned by a code term binds ?<key> for the terms that follow (numbers arrive as Go integers from otto)
+            if t["t"] == "bindvar": scope.add("?" + t["k"])
+            if t["t"] == "lit" and isinstance(t["v"], dict): scope.update("?" + k for k in t["v"])
+            if rng.random() < 0.3:
+                # the script may also be given as an array of lines (joined with newlines): a comment line must not swallow the rest
+                ct = dict(ct, code=["// " + rng.choice(["check", "x = 1", "return false"]), ct["code"]])
+            return ct
         if r < 0.65:
             return {"and": [self.query(depth - 1, scope, facts) for _ in range(rng.randint(0, 3))]}
         if r < 0.85:
@@ -73,10 +81,13 @@ class QG:
         return {"not": self.query(depth - 1, set(scope), facts) if z < 0.95 else {}}
 
 def gen_case(rng, thorough):
-    parent = rng.random() < 0.4
-    locs = ["a", "p"] if parent else ["a"]
+    topo = rng.choice(["none", "none", "none", "parent", "parent", "diamond"])
+    parent = topo != "none"
+    locs = {"none": ["a"], "parent": ["a", "p"], "diamond": ["a", "l", "r", "top"]}[topo]
     ops = []
-    if parent: ops.append({"op": "setParents", "loc": "a", "parents": ["p"]})
+    if topo == "parent": ops.append({"op": "setParents", "loc": "a", "parents": ["p"]})
+    if topo == "diamond":
+        ops += [{"op": "setParents", "loc": "a", "parents": ["l", "r"]}, {"op": "setParents", "loc": "l", "parents": ["top"]}, {"op": "setParents", "loc": "r", "parents": ["top"]}]
     facts = [gen_fact(rng) for _ in range(rng.randint(0, 6))]
     for i, f in enumerate(facts):
         ops.append({"op": "addFact", "loc": rng.choice(locs), "id": "f%d" % i, "fact": f})
